@@ -169,11 +169,9 @@ def final_checks(run, clients, healed_for, horizon=HORIZON):
             run.void.append("connection of %s not open at the end" % (cl.addr,))
     open_addrs = {id(cl.udp.conn) for cl in clients if run.open(cl)} | {id(run.sconn(cl)) for cl in clients if run.open(cl)}
     for pid, rec in app.sends.items():
-        if rec.get("small"):
-            continue
         conn = rec["conn"]
         guaranteed = rec["retry"] == -1
-        delivered = len(app.deliveries.get(pid, []))
+        delivered = rec.get("delivered", 0) if rec.get("small") else len(app.deliveries.get(pid, []))
         if rec["refused"] is not None:
             if rec.get("expect_refusal"):
                 c.inc("refusals_expected")
